@@ -113,6 +113,8 @@ def min_positive_sum(A, ncol, bound):
     if len(free) > 4:
         return None, None
     rng = range(1, bound - ncol + 2)
+    if len(rng) ** len(free) > 150000:
+        return None, None  # too large to enumerate: minimality is not asserted for this case
     for vals in product(rng, repeat=len(free)):
         if sum(vals) > bound:
             continue
